@@ -58,11 +58,12 @@ type Case struct {
 	Tags []string  `json:"tags,omitempty"`
 	Runs []RunCase `json:"runs"`
 	// C18 / C17 / C02 style: a second source that must agree with the first
-	Src2  string `json:"src2,omitempty"`
-	Law   string `json:"law,omitempty"`
-	Typed bool   `json:"typed,omitempty"` // C03: every operand is statically typed
-	Alt   bool   `json:"alt,omitempty"`   // C17: compile against the alternative environment (Add takes float64)
-	Table bool   `json:"table,omitempty"` // C17: the operator is mapped to two candidates (Add, AddAny)
+	Src2  string     `json:"src2,omitempty"`
+	Law   string     `json:"law,omitempty"`
+	Typed bool       `json:"typed,omitempty"` // C03: every operand is statically typed
+	Alt   bool       `json:"alt,omitempty"`   // C17: compile against the alternative environment (Add takes float64)
+	Promo *PromoRule `json:"promo,omitempty"` // C14: the conversion rule of `A op B`
+	Table bool       `json:"table,omitempty"` // C17: the operator is mapped to two candidates (Add, AddAny)
 }
 
 // Failure is one real execution that contradicts the specification.
@@ -155,6 +156,7 @@ type replayer struct {
 	reused   map[string]*vm.VM
 	opts     map[string]string // driver-specific flags
 	ocSeen   int
+	probed   bool
 }
 
 func (r *replayer) fail(f Failure) {
@@ -432,6 +434,7 @@ func (r *replayer) dispatch(line []byte) error {
 		}
 		if r.ocSeen == 0 {
 			r.raceCompileEmbedded()
+			r.raceSharedOptions()
 		}
 		r.ocSeen++
 		stride := 1
